@@ -99,6 +99,121 @@ def run(chk, R, tier, seed, rng):
         diverged_unpredicted=diverged_unpred, identical=clean)
     chk.count("native tier programs", len(progs))
     chk.count("native tier hazard-predicted programs", predicted)
+    import os
+    if tier == "thorough" or os.environ.get("VERIF_SANITIZE"):
+        safe = [(i, p) for i, p in enumerate(progs)
+                if res_p.get(i) and not res_p[i].get("hazard")]
+        hazardous = [(i, p) for i, p in enumerate(progs)
+                     if res_p.get(i) and res_p[i].get("hazard")]
+        sanitizer_stage(chk, safe, hazardous[:200], res_p)
+
+
+def sanitizer_stage(chk, safe, hazardous, res_p):
+    """Rebuild decimalfp's C extension from the shipped sources with
+    -fsanitize=address,undefined into a temporary directory and repeat the
+    native run under it.  Can only add a finding; skipped (and said so) when
+    the build is not possible."""
+    import glob
+    import os
+    import re
+    import shutil
+    import subprocess
+    import sysconfig
+    import tempfile
+    info = {}
+    chk.extra["sanitizer_stage"] = info
+    d = tempfile.mkdtemp(prefix="vq-asan-")
+    try:
+        r = subprocess.run(
+            ["/venv/bin/python", "-c",
+             "import decimalfp, os; print(os.path.dirname(decimalfp.__file__))"],
+            capture_output=True, text=True, timeout=60)
+        sp = r.stdout.strip().splitlines()[-1] if r.stdout.strip() else ""
+        rts = glob.glob("/usr/lib/llvm-14/lib/clang/*/lib/linux/"
+                        "libclang_rt.asan-x86_64.so")
+        inc = subprocess.run(
+            ["/venv/bin/python", "-c",
+             "import sysconfig; print(sysconfig.get_paths()['include']);"
+             "print(sysconfig.get_config_var('EXT_SUFFIX'))"],
+            capture_output=True, text=True, timeout=60).stdout.split()
+        if not sp or not rts or len(inc) != 2 or \
+                not os.path.exists(os.path.join(sp, "_cdecimalfp.c")):
+            info["status"] = "skipped: sources, clang runtime or headers " \
+                             "not found"
+            return
+        pkg = os.path.join(d, "decimalfp")
+        os.makedirs(pkg)
+        for f in glob.glob(os.path.join(sp, "*.py")) + \
+                [os.path.join(sp, "py.typed")]:
+            if os.path.exists(f):
+                shutil.copy(f, pkg)
+        so = os.path.join(pkg, "_cdecimalfp" + inc[1])
+        cmd = ["clang", "-shared", "-fPIC", "-O1", "-g", "-DNDEBUG",
+               "-fsanitize=address,undefined", "-fno-omit-frame-pointer",
+               "-I" + inc[0], "-I" + os.path.join(sp, "libfpdec"), "-I" + sp,
+               os.path.join(sp, "_cdecimalfp.c")] + \
+            sorted(glob.glob(os.path.join(sp, "libfpdec", "*.c"))) + \
+            ["-o", so, "-lm"]
+        b = subprocess.run(cmd, capture_output=True, text=True, timeout=600)
+        if b.returncode != 0 or not os.path.exists(so):
+            info["status"] = "skipped: build failed: " + b.stderr[-300:]
+            return
+        logdir = os.path.join(d, "logs")
+        os.makedirs(logdir)
+        Rs = Runner(native=True, accel=False, reach=False)
+        Rs.pythonpath_prefix = [d]
+        Rs.extra_env = {
+            "LD_PRELOAD": rts[0],
+            "ASAN_OPTIONS": "detect_leaks=0:halt_on_error=0:log_path=%s" %
+                            os.path.join(logdir, "san"),
+            "UBSAN_OPTIONS": "print_stacktrace=1:halt_on_error=0:"
+                             "log_path=%s" % os.path.join(logdir, "san")}
+        try:
+            def blocks():
+                out = []
+                for f in glob.glob(os.path.join(logdir, "san*")):
+                    txt = open(f, errors="replace").read()
+                    for m in re.finditer(
+                            r"(ERROR: AddressSanitizer[^\n]*|"
+                            r"[^\n]*runtime error:[^\n]*)", txt):
+                        out.append(m.group(1)[-200:])
+                    os.unlink(f)
+                return out
+            res = Rs.run([{"pid": i, "isolate": True, "steps": st}
+                          for i, (st, _) in safe], prog_timeout=60,
+                         timeout=1800)
+            b_safe = blocks()
+            div = [i for i, _ in safe
+                   if res.get(i) is None or res[i].get("died") or
+                   strip(res[i]["obs"]) != strip(res_p[i]["obs"])]
+            info["programs_not_predicted"] = len(safe)
+            info["report_blocks_not_predicted"] = len(b_safe)
+            info["divergences_not_predicted"] = len(div)
+            if b_safe or div:
+                chk.violation(
+                    "sanitizer build of decimalfp: %d report block(s) and %d "
+                    "divergence(s) on programs that are NOT hazard-predicted:"
+                    " %s" % (len(b_safe), len(div), b_safe[:3]),
+                    dict(reports=b_safe[:20], diverging=div[:20]),
+                    "native-divergence-unpredicted")
+            Rs.run([{"pid": i, "isolate": True, "steps": st}
+                    for i, (st, _) in hazardous], prog_timeout=60,
+                   timeout=1800)
+            b_h = blocks()
+            dedup = {}
+            for x in b_h:
+                key = re.sub(r"0x[0-9a-f]+|pid \d+|==\d+==", "", x)[-120:]
+                dedup[key] = dedup.get(key, 0) + 1
+            info["programs_predicted"] = len(hazardous)
+            info["report_blocks_predicted"] = len(b_h)
+            info["distinct_reports_predicted"] = dedup
+            info["status"] = "ran"
+        finally:
+            Rs.close()
+    except Exception as exc:      # can only add a finding
+        info["status"] = "skipped: %r" % (exc,)
+    finally:
+        shutil.rmtree(d, ignore_errors=True)
 
 
 def _run(R, progs, divlog):
